@@ -53,6 +53,7 @@ type ioObj struct {
 	pport  int // pkt: peer port
 	closed bool
 	broken bool // descriptor closed underneath
+	phold  bool // ... and its number re-occupied by an inert placeholder (an eventfd), so that nothing else can take it
 	rd, wr *ioOp
 	sent   int // bytes the peer has written towards the object
 	got    int // bytes delivered by read callbacks
@@ -161,6 +162,9 @@ func (o *ioObj) teardown() {
 		switch {
 		case o.broken:
 			// the descriptor was closed underneath on purpose; nothing of sonic's to close
+			if o.phold && o.kind != "adp" { // (the adapter's net.Conn, closed below, closes the number)
+				syscall.Close(o.rawfd)
+			}
 		case o.fdo != nil:
 			if o.kind == "tcp" || o.kind == "acc" {
 				syscall.SetsockoptLinger(o.rawfd, syscall.SOL_SOCKET, syscall.SO_LINGER, &syscall.Linger{Onoff: 1})
@@ -471,6 +475,14 @@ func (d *ioDriver) cancel(o *ioObj) {
 		if op.calls != 1 {
 			d.fail(fmt.Sprintf("%s.%s/cancel/not-completed-once", o.kind, op.kind), "%s: Cancel returned, %s#%d was in flight and its callback ran %d times", o.name, op.kind, op.id, op.calls)
 		}
+		if o.broken {
+			// the descriptor is gone: removing the interest fails in the kernel and that error is what the
+			// operation completes with — once, and with an error, is all that can be asked here
+			if op.err == nil {
+				d.fail(fmt.Sprintf("%s.%s/cancel/wrong-error", o.kind, op.kind), "%s: Cancel completed %s#%d without an error", o.name, op.kind, op.id)
+			}
+			continue
+		}
 		if !errors.Is(op.err, sonicerrors.ErrCancelled) {
 			d.fail(fmt.Sprintf("%s.%s/cancel/wrong-error", o.kind, op.kind), "%s: Cancel completed %s#%d with %v, not a cancellation error", o.name, op.kind, op.id, op.err)
 		}
@@ -685,6 +697,41 @@ func (d *ioDriver) actions() []ioAction {
 					d.start(o, "read", 1, 0)
 				})
 			}
+			// the same with an operation of the OTHER direction already waiting in the poller: the descriptor is
+			// closed underneath (the kernel drops it from the epoll set) and its number is taken by an unrelated
+			// descriptor; the new operation's registration (a modification of the existing interest) fails, and
+			// must leave the waiting operation counted and cancellable
+			// (not for the adapter: its net.Conn would go on using the descriptor NUMBER, which now denotes the placeholder)
+			if d.c03 && (o.kind == "tcp" || o.kind == "acc") && (o.rd != nil) != (o.wr != nil) && !o.broken {
+				dir := "write"
+				if o.wr != nil {
+					dir = "read"
+				}
+				add("close-fd-underneath+"+dir+"-deferred("+o.name+")", func() {
+					syscall.Close(o.rawfd)
+					ev, err := unix.Eventfd(0, unix.EFD_NONBLOCK|unix.EFD_CLOEXEC)
+					if err != nil {
+						engine.HarnessError("eventfd: %v", err)
+					}
+					if ev != o.rawfd {
+						if err := unix.Dup3(ev, o.rawfd, unix.O_CLOEXEC); err != nil {
+							engine.HarnessError("dup3: %v", err)
+						}
+						syscall.Close(ev)
+					}
+					o.broken, o.phold = true, true
+					d.start(o, dir, 1, 0)
+					if op := map[string]*ioOp{"read": o.rd, "write": o.wr}[dir]; op != nil && !op.done {
+						d.fail(o.kind+"."+dir+"/registration-failure-not-reported", "%s: the descriptor is not in the epoll set any more; %s#%d was started (deferred) and its callback has not run", o.name, dir, op.id)
+					}
+				})
+			}
+		}
+		if !o.closed && o.broken && o.phold && o.fdo != nil {
+			if o.rd != nil || o.wr != nil {
+				add("cancel("+o.name+")", func() { d.cancel(o) })
+			}
+			add("close("+o.name+")", func() { d.close(o) })
 		}
 		if o.peer >= 0 {
 			switch o.kind {
